@@ -166,6 +166,10 @@ func c16Key(name string, size int64, mode os.FileMode, mtime int64, owner string
 	return fmt.Sprintf("%q|%d|%v|%d|%s", name, size, mode, mtime, owner)
 }
 
+// c16ReaddirLimit: the number of READDIR requests after which a listing is judged not to terminate (raised around the
+// one listing that legitimately needs more)
+var c16ReaddirLimit int32 = 2000
+
 // c16List runs Client.ReadDir under the stuck detector and counts READDIR requests.
 func c16List(u *vfUnit, sess *vfSession, dir, label string) ([]os.FileInfo, int, bool) {
 	var readdirs atomic.Int32
@@ -177,7 +181,7 @@ func c16List(u *vfUnit, sess *vfSession, dir, label string) ([]os.FileInfo, int,
 				// termination in logical steps: no directory here has more than ~300 entries and every
 				// legal batch makes progress, so a listing that is still asking after 2000 READDIR
 				// requests does not terminate. The connection is cut so that the call can be judged.
-				if readdirs.Add(1) == 2000 && runaway.CompareAndSwap(false, true) {
+				if readdirs.Add(1) == c16ReaddirLimit && runaway.CompareAndSwap(false, true) {
 					go sess.cEnd.ForceClose()
 				}
 			}
@@ -189,7 +193,7 @@ func c16List(u *vfUnit, sess *vfSession, dir, label string) ([]os.FileInfo, int,
 	done := vfGo(func() { ents, err = sess.C.ReadDir(dir) })
 	defer func() {
 		if runaway.Load() {
-			u.Violation("listing-does-not-terminate:"+label, fmt.Sprintf("ReadDir (%s) was still sending READDIR requests after 2000 round trips; the connection was cut", label), map[string]any{"case": label})
+			u.Violation("listing-does-not-terminate:"+label, fmt.Sprintf("ReadDir (%s) was still sending READDIR requests after %d round trips; the connection was cut", label, c16ReaddirLimit), map[string]any{"case": label})
 		}
 	}()
 	if w, dump := vfAwait(done, 120*time.Second); w != vfDone {
@@ -416,6 +420,7 @@ func c16RS(u *vfUnit, part, parts int) {
 		if batch == 1 {
 			// a listing of more than a thousand batches (any number of entries, however small the batches)
 			ns = append(ns, 1100)
+			ns = append(ns, 17000) // tens of thousands of batches
 		}
 		for _, n := range ns {
 			for behaviour := 0; behaviour < 4; behaviour++ {
@@ -481,7 +486,9 @@ func c16RS(u *vfUnit, part, parts int) {
 					label := fmt.Sprintf("RequestServer/batch=%d/n=%d/behaviour=%d/dots=%v", batch, n, behaviour, dots)
 					u.Eval(label)
 					u.Count("listings", 1)
+					c16ReaddirLimit = int32(max(2000, n+2000))
 					got, trips, ok := c16List(u, sess, "/dir", label)
+					c16ReaddirLimit = 2000
 					if ok {
 						c16Compare(u, label, got, want)
 						total := len(l.ents)
